@@ -508,8 +508,8 @@ CHECKS["C07"] = {
             "scheduler where the wall clock may jump 7 s ahead before any clock read. threads: each pair of programs wired, built and run on two "
             "controlled threads, every interleaving at mutex/condvar operations (type registries, plan factories, intern tables). "
             "non-trivial = history of length >= 2 / schedule differing from the default.",
-    "bounds": {"quick": "histories: L<=3 over 50 letters; clock: <= 2 jumps; threads: 1 preemption for all 45 unordered pairs, 2 for three pairs (GlobalState/GlobalContext, map_/switch_, record/replay)",
-               "thorough": "histories: L<=3 over 58 letters, L=4 over 26 letters; <= 3 jumps; 2 preemptions for all 81 ordered pairs"},
+    "bounds": {"quick": "histories: L<=3 over 50 letters; clock: <= 3 jumps; threads: 1 preemption for all 45 unordered pairs, 2 for three pairs (GlobalState/GlobalContext, map_/switch_, record/replay)",
+               "thorough": "histories: L<=3 over 58 letters, L=4 over 26 letters; <= 5 jumps; 2 preemptions for all 81 ordered pairs"},
     "min_counters": {"quick": {"nontrivial": 100000, "threads.executions": 5000, "clock.executions": 500}},
     "assumptions": COMMON_ASSUMPTIONS + [
         "Unsynchronised data races are outside a scheduler that switches at synchronisation operations (no ThreadSanitizer build of the tree in this image's budget).",
